@@ -346,6 +346,9 @@ func execMem(x *Expect, in *Instr, e *Entry, pre, post *State) {
 		base := pre.ReadScalar(in.Ops[1], 64)
 		off := pre.ReadScalar(in.Ops[2], 32)
 		addr := (base + off) &^ 3
+		if m.NoAlign {
+			addr = base + off
+		}
 		data, ok := pre.Mem.Read(addr, m.Bytes)
 		if !ok {
 			x.Unsupported = "unmapped address"
@@ -371,12 +374,19 @@ func execMem(x *Expect, in *Instr, e *Entry, pre, post *State) {
 			switch m.Kind {
 			case "dsread":
 				a := uint32(pre.ReadLane(in.Ops[1], 32, lane)) + uint32(in.Mod("offset", 0))
+				if m.IgnoreOffset {
+					a = uint32(pre.ReadLane(in.Ops[1], 32, lane))
+				}
 				if int(a)+m.Bytes > len(pre.LDS) {
 					x.Unsupported = "LDS address out of range"
 					return
 				}
 				writeLoad(post, in.Ops[0], lane, pre.LDS[a:int(a)+m.Bytes], m)
 			case "dsread2":
+				if in.Mod("offset0", 0) == in.Mod("offset1", 0) {
+					x.Unsupported = "read2 with equal offsets: 10-7 says only one access happens"
+					return
+				}
 				base := uint32(pre.ReadLane(in.Ops[1], 32, lane))
 				for k, name := range []string{"offset0", "offset1"} {
 					a := base + uint32(in.Mod(name, 0))*uint32(m.Mul)
@@ -404,6 +414,9 @@ func execMem(x *Expect, in *Instr, e *Entry, pre, post *State) {
 						return
 					}
 					storeData(post.LDS[a:int(a)+m.Bytes], pre, in.Ops[1+k], lane)
+					if in.Mod("offset0", 0) == in.Mod("offset1", 0) {
+						break // 10-7: equal offsets cause only one write, of DATA0
+					}
 				}
 			}
 		}
@@ -418,6 +431,10 @@ func execMem(x *Expect, in *Instr, e *Entry, pre, post *State) {
 		if last := in.Ops[len(in.Ops)-1]; len(in.Ops) == 3 && last.Kind == KSGPR {
 			saddr = true
 			sbase = pre.ReadScalar(last, 64)
+		}
+		if m.SaddrS0 && !saddr {
+			saddr = true
+			sbase = uint64(pre.S[0]) | uint64(pre.S[1])<<32
 		}
 		for lane := 0; lane < NumLanes; lane++ {
 			if pre.EXEC>>uint(lane)&1 == 0 {
